@@ -24,9 +24,36 @@ def bases(draw):
     return draw(G.barlines())['t']
 
 
+EDIT_CHARS = list('0123456789abcdefgrqpPLJKk;:()[]{}_^~\'".#-nxyXZ<>&?!|=*%/\\ ') + ['€']
+
+
 @st.composite
-def malformed(draw):
-    """-> {'t': text, 'kind': unknown|truncated|order|trail, 'strict': bool}"""
+def mutated(draw):
+    """a valid note/rest/chord with 1-2 random edits (insert, delete, swap, replace).  Whether the result is still
+    inside the grammar is NOT known to the harness: only the isolation clauses and 'nothing silently lost' apply."""
+    t = draw(G.kern_data_cells(null_weight=0))['t']
+    for _ in range(draw(st.integers(1, 2))):
+        op = draw(st.sampled_from(['ins', 'del', 'swap', 'rep']))
+        i = draw(st.integers(0, max(0, len(t) - 1)))
+        if op == 'ins' or not t:
+            t = t[:i] + draw(st.sampled_from(EDIT_CHARS)) + t[i:]
+        elif op == 'del' and len(t) > 1:
+            t = t[:i] + t[i + 1:]
+        elif op == 'swap' and len(t) > 1 and i + 1 < len(t):
+            t = t[:i] + t[i + 1] + t[i] + t[i + 2:]
+        else:
+            t = t[:i] + draw(st.sampled_from(EDIT_CHARS)) + t[i + 1:]
+    t = t.strip().replace('\t', '')
+    if not t or t[0] in '!' or t.startswith('**') or t in ('*^', '*v', '*-', '*+', '*x'):
+        t = '4' + t.lstrip('!*') + 'c'
+    return {'t': t, 'kind': 'mutated', 'strict': False}
+
+
+@st.composite
+def malformed(draw, with_mutated=False):
+    """-> {'t': text, 'kind': unknown|truncated|order|trail|mutated, 'strict': bool}"""
+    if with_mutated and draw(st.integers(0, 3)) == 0:
+        return draw(mutated())
     k = draw(st.sampled_from(['unknown', 'unknown', 'truncated', 'order', 'trail', 'trail']))
     if k == 'unknown':
         b = draw(bases())
